@@ -4,7 +4,7 @@ use crate::abnf::Prod;
 use crate::ctx::{Case, Ctx};
 use crate::{fam, gen};
 
-pub const RULE: &str = "cases: (value, M-eq-equal respelling) and (value, near-equal perturbation) pairs around grammar-derived references (toggle percent-encoding of unreserved characters, hex case, inserted './' and 'x/../', one octet changed, trailing '/', %2F vs '/', present-but-empty vs absent), component pairs over every %XX pattern incl. octets that are not UTF-8, IP-literal hosts, dot/empty segments, and respelling chains for transitivity; every same-type and provided cross-type == / != impl is run under catch_unwind and compared with the model equivalence. Non-trivial = pairs of textually different values; distinct by the pair";
+pub const RULE: &str = "cases: (value, M-eq-equal respelling) and (value, near-equal perturbation) pairs around grammar-derived references (toggle percent-encoding of unreserved characters, hex case, inserted './' and 'x/../', one octet changed, trailing '/', %2F vs '/', present-but-empty vs absent), component pairs over every %XX pattern incl. octets that are not UTF-8, IP-literal hosts, dot/empty segments, and respelling chains for transitivity; every same-type and provided cross-type == / != impl is run under catch_unwind and compared with the model equivalence. Also: fully percent-encoded hosts against the literal, paths of 13-20 segments whose tails reach back into a long byte-identical prefix, octets an implementation could use as a sentinel (%00 %01 %FF, encoded delimiters) against a real boundary, the full product of authority shapes, and values that ALIAS one buffer (every valid prefix/suffix view of a text against the whole text and against each other). Non-trivial = pairs of textually different values; distinct by the pair";
 
 pub const MANDATORY: &[&str] = &["pair:identical", "pair:equal-respelled", "pair:unequal", "pair:both-full", "octets:utf8", "octets:non-utf8", "comp:Authority", "comp:Path", "comp:UserInfo", "comp:Host", "comp:Segment", "comp:Query", "comp:Fragment", "comp:Scheme", "comp:Port", "triple:all-equal"];
 
